@@ -1076,7 +1076,9 @@ class electrical_signal():
         """
         if by.lower() not in ['signal', 'noise', 'all']:
             raise ValueError('`by` must be one of the following values ("signal", "noise", "all")')
-        return np.mean(self.abs(by)**2, axis=-1)
+        a = self.abs(by)
+        a = a.astype(np.result_type(a, float), copy=False)  # integer/bool samples: avoid wrap-around in a**2
+        return np.mean(a**2, axis=-1)
     
     def phase(self):
         """Get phase of the ``signal`` + `noise`.
